@@ -270,8 +270,9 @@ class FileBufferedCollection(BufferedCollection):
                     self._update(data)
                 self._initialize_data_in_buffer()
 
-        # This storage can be safely updated every time on every thread.
-        type(self)._buffered_collections[id(self)] = self
+            # The registry is emptied and refilled by flushes of the whole buffer
+            # on other threads, so it may only be modified while locked.
+            type(self)._buffered_collections[id(self)] = self
 
     @abstractmethod
     def _initialize_data_in_buffer(self):
@@ -353,7 +354,11 @@ class FileBufferedCollection(BufferedCollection):
             except (OSError, MetadataError) as err:
                 issues[collection._filename] = err
         if not issues:
-            cls._buffered_collections = remaining_collections
+            # Other threads may have registered collections while this flush
+            # was running, so the retained collections are added back to the
+            # registry instead of replacing it.
+            with cls._BUFFER_LOCK:
+                cls._buffered_collections.update(remaining_collections)
         else:
             raise BufferedError(issues)
 
